@@ -19,37 +19,59 @@ TRUSTED = [
 ]
 
 ASSUMPTIONS = [
-    "context created with LY_CTX_NO_YANGLIBRARY | LY_CTX_DISABLE_SEARCHDIRS (+ LY_CTX_EXPLICIT_COMPILE), import callback set before "
-    "the first module is loaded; no submodules, augments, deviations, cross-module leafref/when/must (no implicit implementing), "
-    "acyclic imports; every module has a data node (never a single-module dep set); LY_CTX_ALL_IMPLEMENTED is never set in "
-    "the scripts the model runs, and ENABLE_IMP_FEATURES / REF_IMPLEMENTED are stored bits there (the modelled modules have nothing "
-    "they act on; their effect on richer modules is checked by the oracle ctx-rich on the library only)",
+    "Model fragment (Coq theorems and T2 ctxs): context created with LY_CTX_NO_YANGLIBRARY | LY_CTX_DISABLE_SEARCHDIRS (+ "
+    "LY_CTX_EXPLICIT_COMPILE), import callback set before the first module is loaded; modules have imports, features with "
+    "if-feature and one node per fault kind; no submodules, augments, deviations, identities, cross-module leafref/when/must (no "
+    "implicit implementing), acyclic imports; every user module has a data node (never a single-module dep set). "
+    "LY_CTX_ALL_IMPLEMENTED is not modelled and never set in the scripts the model runs; ENABLE_IMP_FEATURES / REF_IMPLEMENTED are "
+    "stored bits in the model (the modelled modules have nothing they act on); their effect, and the constructs excluded above, are "
+    "checked by the oracle ctx-rich on the library only (no Coq counterpart)",
+    "Outside everything: search directories, the yang-library module and ly_ctx_new_yl*, extension plugins, printed/compiled "
+    "contexts, memory safety beyond the data-tree and dangling-pointer checks of the oracles",
 ]
 
 MANIFEST = {
-    "text": "Coq (Properties_C09_ctx.v, model Context.v = lys_parse_in / lys_parse_load / _lys_set_implemented / lys_implement / "
-            "lys_unres_dep_sets_create / lys_compile_depset_all / lys_unres_glob_revert / ly_ctx_set_options / ly_ctx_unset_options "
-            "transcribed update by update, as of /repo 21681e3, af27b8d, d89c6b6, c018937, d873110; the state carries the options "
-            "EXPLICIT_COMPILE, ENABLE_IMP_FEATURES, REF_IMPLEMENTED, SET_PRIV_PARSED): MAIN THEOREM C09_failed_op_restores - in "
-            "every reachable quiescent state (executable: nothing pending, implemented = compiled against the current features) a "
-            "failing parse / load / implement / compile / set_options / unset_options leaves obs "
-            "(modules, revisions, implemented, feature values, compiled schema, get_module_latest/implemented answers, hashed fields, "
-            "ly_ctx_get_options) unchanged (the option calls because they cannot fail there: C09_option_calls_quiescent_ok); in EVERY "
-            "state a failing ly_ctx_set_options leaves the options as they were (C09_set_options_failed_keeps_options; the variant "
-            "that ORs the flags in first is refuted by a witness, C09_set_options_or_first_refuted = seeded change C09-7), for every failing stage and both compile modes; no other hypothesis (the latest-revision invariant is proved "
-            "for all reachable states, the feature bits are restored by the revert). The full statement over all reachable states "
-            "is still REFUTED (C09_failed_op_restores_refuted / C09_quiescent_necessary: explicit compilation with pending changes); "
-            "regression theorems for the three fixed defects (C09_latest_flag_given_back, C09_feature_bits_restored); "
-            "ly_ctx_compile of a quiescent context cannot fail; parse-stage failures compile nothing (data trees stay valid) while "
-            "data_trees_still_valid and later_load_unaffected are refuted by witnesses (revert recompiles; LYS_MOD_IMPORTED_REV "
-            "stays); change count is monotone modulo 2^16. Tie: T2 ctxs (model and real library print identical lines after every "
-            "operation of random and systematic scripts, white-box fields included) and the property oracles on the library itself: "
-            "ctx-restore (before/after observable, compiled YANG print hashes, data trees, shadow context that only saw the "
-            "successful operations) and ctx-rich (modules with identities, submodules with own imports, augments, deviations: "
-            "identity derived[] sets, augmented_by/deviated_by back-links, compiled prints, shadow context).",
-    "note": "The compiled schema is abstract (which features of the module and of its imports were enabled, plus whether disabled "
-            "nodes were already removed). Not modelled: see ASSUMPTIONS. Preservation of quiescence by successful operations is "
-            "tested on the model (oracle ctx-model-inv), not proved. About 85% of the failing operations of random scripts start "
-            "from a quiescent state (covered by the main theorem); the others are explicit-compile states with pending changes.",
+    "text": "Coq (Properties_C09_ctx.v; hand-written model Context.v = lys_parse_in / lys_parse_load / _lys_set_implemented / "
+            "lys_implement / lys_unres_dep_sets_create / lys_compile_depset_all / lys_unres_glob_revert / ly_ctx_compile / "
+            "ly_ctx_set_options / ly_ctx_unset_options transcribed update by update - modelled, not verified C; it follows /repo "
+            "21681e3, af27b8d, d89c6b6, c018937; 1c17162 and d873110 touch nothing the model has; the state carries the options "
+            "EXPLICIT_COMPILE, ENABLE_IMP_FEATURES, REF_IMPLEMENTED, SET_PRIV_PARSED). MAIN THEOREM C09_failed_op_restores: for every "
+            "repository R, every state s reachable from a new context (either compile mode) with quiescent s = true (executable: "
+            "nothing pending in unres, no to_compile mark, every implemented module compiled against the current features and "
+            "compilable again) and every operation o of parse / load / set_implemented / compile / set_options / unset_options, if "
+            "step returns RErr (a model run that ends in RFuel or RAbort = assert of the C code is not covered) then obs (modules, "
+            "revisions, implemented, feature values, abstract compiled schema, get_module_latest/implemented answers, hashed fields, "
+            "ly_ctx_get_options) is unchanged, whatever stage fails; no other hypothesis (the latest-revision invariant is proved for "
+            "all reachable states). The two option calls are covered because they cannot fail there (C09_option_calls_quiescent_ok); "
+            "C09_compile_quiescent_ok: neither can ly_ctx_compile, and it compiles nothing; C09_syntax_fault_restores: a syntax error "
+            "always fails. C09_set_options_failed_keeps_options: in EVERY state (reachable or not, quiescent or not) a failing "
+            "ly_ctx_set_options leaves the options as they were (modules not covered there); Example "
+            "C09_set_options_or_first_refuted: the variant that ORs the flags in first (seeded change C09-7) does not, with "
+            "C09_set_options_failed_witness on the model as coded. The statement over all reachable states is REFUTED "
+            "(C09_failed_op_restores_refuted, C09_quiescent_necessary: explicit compilation with pending changes = known finding "
+            "ctx-explicit-revert-pending); Example C09_hypotheses_satisfiable: ten failing operations, one per fault kind, in a "
+            "reachable quiescent state. Regression theorems of fixed defects: C09_latest_flag_given_back (ctx-latest-rev-lost, fixed "
+            "21681e3), C09_feature_bits_restored (ctx-features-kept-implemented / -imported, fixed af27b8d). Beyond obs: "
+            "C09_later_load_unaffected (a later call depends on the C state `core` only) but C09_later_load_affected_refuted "
+            "(LYS_MOD_IMPORTED_REV stays: known ctx-hidden-state-left); C09_data_trees_still_valid_refuted (the failing call and the "
+            "revert recompile old modules: known ctx-revert-recompiles) while C09_parse_failure_keeps_compiled_trees (a failure in the "
+            "parse stage compiles nothing); C09_change_count_monotone (modulo 2^16, not restored, not in obs). Tie: T2 ctxs - model "
+            "and real library print identical lines after every operation of witness, systematic (every fault kind at every "
+            "position) and random scripts incl. option calls: result, change-count moved, per module revision / implemented / "
+            "latest_revision bits / to_compile / feature values / feature-dependent leaves / recompiled-or-not, latest and "
+            "implemented answers, hash recomputed as documented, options; an abort on assert must coincide (known ctx-assert-latest); "
+            "T2 ctxint - table of the internal modules. Property oracles on the library itself: ctx-restore (same abstract modules: "
+            "before/after observable, compiled YANG print hashes, data trees parsed before, shadow context that only saw the "
+            "successful operations) and ctx-rich (oracle level only, no model: identities, submodules with own imports and features, "
+            "augments, deviations, leafref/must into imports, option calls incl. ALL_IMPLEMENTED; identity derived[] sets, "
+            "augmented_by/deviated_by back-links, compiled prints, options, shadow context). Fixed and retired at oracle level: "
+            "ctx-imp-features-kept (d89c6b6), ctx-explicit-compile-partial (c018937), ctx-target-not-compiled (d873110), "
+            "ctx-ref-implemented-set-late (1c17162).",
+    "note": "The compiled schema of the model is abstract (which features of the module and of its imports were enabled, plus "
+            "whether disabled nodes were already removed). Preservation of quiescence by successful operations is tested on the model "
+            "only (oracle ctx-model-inv, which also re-evaluates the main theorem along scripts), not proved. Most failing operations "
+            "of the random scripts (very roughly 85%) start from a quiescent state and are covered by the main theorem; the others "
+            "are explicit-compile states with pending changes. Open known findings: ctx-explicit-revert-pending, "
+            "ctx-hidden-state-left, ctx-revert-recompiles, ctx-assert-latest.",
     "technique": "Coq proof over hand-written model + differential correspondence (extracted OCaml vs C) + property oracle on the implementation",
 }
